@@ -258,6 +258,11 @@ class FaultAt(PointCounter):
             return
         self.fired = [event.kind, event.brief(self.root)]
         if event.kind.startswith('sql'):
+            if event.detail == 'commit':
+                # the commit hook runs outside SQLAlchemy's DBAPI error wrapping: raise what a failing COMMIT really surfaces as
+                from sqlalchemy.exc import OperationalError  # pylint: disable=import-outside-toplevel
+
+                raise OperationalError('COMMIT', None, sqlite3.OperationalError('disk I/O error (injected)'))
             raise sqlite3.OperationalError('disk I/O error (injected)')
         if event.kind == 'write' and self.short_write and event.data is not None and len(event.data) > 1:
             os.write(event.fobj.fileno(), bytes(event.data[: len(event.data) // 2]))
